@@ -99,20 +99,36 @@ def gen_c15(rng):
             ops.append(f"ins k={k} ver={ver} size=7000"); ver += 1
             if i % 4 == 3:
                 ops += ["memevict", "wait"]
+    resident = []
     for _ in range(rng.randrange(2, 12)):
         k = rng.randrange(6)
         ops.append(f"ins k={k} ver={ver} size={rng.choice([64, 3000, 7000])}" + (" loc=inmem" if locs[k] == "inmem" else "")); ver += 1
+        if k not in resident:
+            resident.append(k)
         if rng.random() < 0.25:
-            ops += ["memevict", "wait"]
+            ops += ["memevict", "wait"]; resident = []
         if rng.random() < 0.15:
-            ops.append(f"rm k={rng.randrange(6)}")
+            r = rng.randrange(6)
+            ops.append(f"rm k={r}")
+            if r in resident:
+                resident.remove(r)
+    kept = False
+    if resident and rng.random() < 0.5:
+        # the application still holds entry handles of resident keys when it closes the cache
+        for k in rng.sample(resident, min(len(resident), rng.choice([1, 2, 3]))):
+            ops.append(f"keep k={k}")
+        kept = True
     ops.append("close")
+    if kept and rng.random() < 0.5:
+        ops.append("unkeep"); kept = False
     if rng.random() < 0.4:
         ops.append(f"ins k={rng.randrange(6)} ver={ver} size=64"); ver += 1    # ignored after close
     if rng.random() < 0.4:
         ops.append(f"rm k={rng.randrange(6)}")                                   # ignored after close
     if rng.random() < 0.4:
         ops.append("close")
+    if kept:
+        ops.append("unkeep")
     ops.append("reopen")
     for k in range(6):
         ops.append(f"get k={k}")
@@ -271,6 +287,32 @@ def gen_c03(rng, n_faults, exhaustive_pages=None):
     return out
 
 
+def gen_c03_payload(rng, n):
+    """every entry live, layout known (one batch per insert, all in block 0 behind the 4 KiB blob index; an entry takes
+    36 bytes of header + 8 of value length + the value + 8 of key, page aligned): one bit of one entry's payload -
+    value length, value bytes or key bytes - is flipped on the closed device; small (single-page) and large entries"""
+    out = []
+    for _ in range(n):
+        tomb = rng.choice([0, 1])
+        cfg = H.cfg_line(policy="woi", algo="fifo", univ=5, blocks=8, tomb=tomb)
+        sizes = [rng.choice([16, 64, 500, 1000, 3000, 4000, 4044, 4045, 4060, 9000]) for _ in range(5)]
+        ops, offs, off = [], [], 4096
+        for k, sz in enumerate(sizes):
+            ops += [f"ins k={k} ver={k + 1} size={sz}", "wait"]
+            offs.append(off); off += (52 + sz + 4095) // 4096 * 4096
+        ops.append("close")
+        for _ in range(rng.choice([1, 1, 2])):
+            j = rng.randrange(5)
+            where = rng.choice(["value", "value", "value", "last", "first", "key", "vlen"])
+            lo = offs[j] + 36
+            tgt = {"value": lo + 8 + rng.randrange(sizes[j]), "last": lo + 8 + sizes[j] - 1, "first": lo + 8,
+                   "key": lo + 8 + sizes[j] + rng.randrange(8), "vlen": lo + rng.randrange(8)}[where]
+            ops.append(f"fault part={tomb} page={tgt // 4096} kind=flip:{(tgt % 4096) * 8 + rng.randrange(8)}")
+        ops += ["reopen", "probe"] + [f"get k={k}" for k in range(5)]
+        out.append(cfg + "\n" + "\n".join(ops) + "\n")
+    return out
+
+
 def gen_scripts(pid, tier, seed):
     rng = random.Random(seed * 1000 + int(pid[1:]))
     th = tier == "thorough"
@@ -298,9 +340,11 @@ def gen_scripts(pid, tier, seed):
             "3-page tears of the in-flight write) turned into a device image, reopened, every key read, one more write issued; " \
             "also wrap-around workloads on a 4-block device (reclaim in progress at the crash)"
     if pid == "C03":
-        return gen_c03(rng, 3000 if th else 200), \
+        return gen_c03(rng, 3000 if th else 160) + gen_c03_payload(rng, 600 if th else 60), \
             "workload, graceful close, 1..3 page faults (zero page, 0xff page, single bit flips anywhere / in the header area, " \
-            "page swaps within and across partitions incl. the tombstone log), reopen in quiet mode, read every key"
+            "page swaps within and across partitions incl. the tombstone log), reopen in quiet mode, read every key; plus " \
+            "targeted payload damage: five live entries of known layout (single-page and multi-page), one bit of one entry's " \
+            "value length / value bytes / key bytes flipped"
     raise ValueError(pid)
 
 
